@@ -226,12 +226,13 @@ StrSigma == {"Q", "BS", "a", "n", "u", "D", "8", "LF"}
 NumSigma == {"0", "1", "MINUS", "DOT", "e", "PLUS", "a", "SP"}
 \* quoted strings (first code point is the quote); number / name runs; block-string bodies (the driver wraps them in `"""`)
 LRunsM        == {<<"m", {"Q", "BS", "a", "n", "u", "D", "8", "LF", "SP"}, 5, {"Q", "BS", "a", "n", "u", "D", "8", "LF", "SP"}>>}
-LRunsQuick    == {<<"strings", StrSigma, 5, {"Q"}>>, <<"numbers", NumSigma \ {"PLUS"}, 4, NumSigma \ {"PLUS"}>>,
+LRunsQuick    == {<<"strings", StrSigma, 5, {"Q"}>>, <<"numbers", NumSigma, 4, NumSigma>>,
                   <<"blockA", {"a", "LF", "SP"}, 7, {"a", "LF", "SP"}>>,
                   <<"blockB", {"a", "LF", "SP", "Q", "BS", "CR"}, 4, {"a", "LF", "SP", "Q", "BS", "CR"}>>}
-LRunsThorough == {<<"strings", StrSigma, 6, {"Q"}>>, <<"numbers", NumSigma \ {"SP"}, 5, NumSigma \ {"SP"}>>,
+LRunsThorough == {<<"strings", StrSigma, 6, {"Q"}>>, <<"numbers", NumSigma, 5, NumSigma>>,
                   <<"blockA", {"a", "LF", "SP", "TAB"}, 7, {"a", "LF", "SP", "TAB"}>>,
-                  <<"blockB", {"a", "LF", "SP", "Q", "BS", "CR"}, 5, {"a", "LF", "SP", "Q", "BS", "CR"}>>}
+                  <<"blockB", {"a", "LF", "SP", "Q", "BS", "CR"}, 5, {"a", "LF", "SP", "Q", "BS", "CR"}>>,
+                  <<"blockC", {"a", "LF", "SP", "Q", "BS"}, 6, {"a", "LF", "SP", "Q", "BS"}>>}
 
 \* -- invariants ------------------------------------------------------------------------------------
 TokLen(t) == IF t.k = "s" THEN Len(t.raw) + 2 ELSE IF t.k = "b" THEN Len(t.raw) + 6 ELSE Len(t.s)
@@ -259,8 +260,8 @@ LFoldAgrees == LexFrom(LexInit, text, 1, {}) = Finish(ls)
 LTypeOK == ls.n \in 0..LRun[3] /\ ls.u \in 0..3 /\ Len(ls.toks) <= LRun[3]
 
 \* mode G
-\* (one string per text: TLC wraps long tuples over several lines)
+\* (one bare string per text: TLC's pretty printer wraps long tuples over several lines)
 RECURSIVE JoinStr(_, _, _)
 JoinStr(seq, i, acc) == IF i > Len(seq) THEN acc ELSE JoinStr(seq, i + 1, IF i = 1 THEN seq[i] ELSE acc \o " " \o seq[i])
-LEmit == PrintT(<<"REPLAY", lrun, JoinStr(text, 1, "")>>)
+LEmit == PrintT("REPLAY|" \o lrun \o "|" \o JoinStr(text, 1, ""))
 =============================================================================
